@@ -2,6 +2,9 @@ package rules
 
 import (
 	"fmt"
+	"go/constant"
+	"go/token"
+	"math/big"
 	"strings"
 
 	"golang.org/x/tools/go/ssa"
@@ -17,7 +20,8 @@ func init() {
 		Explain: "Decides the structural half of uniqueness: createNewTokenIdentifier returns an identifier only on the branch where the storage lookup of THAT SAME value came back empty " +
 			"(GetStorage(id) with len(...) == 0 dominating the return of the very value that was looked up), every other exit is an error; createNewToken validates ticker and token name before anything is created, " +
 			"saves the token (error checked) under exactly the identifier it got from createNewTokenIdentifier and returns that identifier. An identifier returned without the emptiness test on itself can overwrite an existing token. " +
-			"Not decided (value-level): the textual form of the identifier (ticker-6 hex digits; reading showed a carry can produce seven digits).",
+			"The random part is printed with %06x and an interval analysis of the mutable *big.Int along the CFG (SetBytes of a 3-byte slice, Add, Mod, Lsh; widening around the retry loop) shows it below 16^6 at the print: exactly six digits. " +
+			"Not decided (value-level): lowercase/charset of the ticker part (validated elsewhere).",
 		Run: runC41,
 	})
 }
@@ -25,6 +29,7 @@ func init() {
 func runC41(c *core.Ctx) {
 	const pkg = "vm/systemSmartContracts"
 	if fn := anchorM(c, pkg, "esdt", "createNewTokenIdentifier"); fn != nil {
+		c41Digits(c, fn)
 		n := 0
 		for i, r := range core.Returns(fn) {
 			if !core.SuccessReturn(r, nil) {
@@ -105,4 +110,345 @@ func runC41(c *core.Ctx) {
 	}
 	c.Floor("C41/identifier-free-when-returned", 1)
 	c.Floor("C41/token-saved-under-its-identifier", 2)
+}
+
+// ---- interval analysis of mutable *big.Int objects along the CFG (for the identifier's digits)
+
+type bigIv struct {
+	top    bool
+	lo, hi *big.Int
+}
+
+func bigObj(v ssa.Value) ssa.Value {
+	for i := 0; i < 16; i++ {
+		call, ok := v.(*ssa.Call)
+		if !ok || call.Call.StaticCallee() == nil || call.Call.StaticCallee().Pkg == nil || call.Call.StaticCallee().Pkg.Pkg.Path() != "math/big" {
+			return v
+		}
+		if call.Call.StaticCallee().Signature.Recv() == nil || len(call.Call.Args) == 0 {
+			return v
+		}
+		v = call.Call.Args[0] // methods of big.Int return their receiver
+	}
+	return v
+}
+
+func joinBig(a, b bigIv) bigIv {
+	if a.top || b.top {
+		return bigIv{top: true}
+	}
+	lo, hi := a.lo, a.hi
+	if b.lo.Cmp(lo) < 0 {
+		lo = b.lo
+	}
+	if hi == nil || b.hi == nil {
+		hi = nil // unbounded above
+	} else if b.hi.Cmp(hi) > 0 {
+		hi = b.hi
+	}
+	return bigIv{lo: lo, hi: hi}
+}
+
+// bigIntervalsAt runs the forward analysis and returns the state just before `at`.
+func bigIntervalsAt(fn *ssa.Function, at ssa.Instruction) map[ssa.Value]bigIv {
+	type state map[ssa.Value]bigIv
+	clone := func(s state) state {
+		c := state{}
+		for k, v := range s {
+			c[k] = v
+		}
+		return c
+	}
+	equal := func(a, b state) bool {
+		if len(a) != len(b) {
+			return false
+		}
+		for k, v := range a {
+			w, ok := b[k]
+			if !ok || v.top != w.top {
+				return false
+			}
+			if !v.top && (v.lo.Cmp(w.lo) != 0 || (v.hi == nil) != (w.hi == nil) || v.hi != nil && v.hi.Cmp(w.hi) != 0) {
+				return false
+			}
+		}
+		return true
+	}
+	get := func(s state, v ssa.Value) bigIv {
+		if iv, ok := s[bigObj(v)]; ok {
+			return iv
+		}
+		return bigIv{top: true}
+	}
+	step := func(s state, in ssa.Instruction) {
+		call, ok := in.(*ssa.Call)
+		if !ok || call.Call.StaticCallee() == nil || call.Call.StaticCallee().Pkg == nil || call.Call.StaticCallee().Pkg.Pkg.Path() != "math/big" {
+			return
+		}
+		callee := call.Call.StaticCallee()
+		args := call.Call.Args
+		if callee.Signature.Recv() == nil {
+			if callee.Name() == "NewInt" {
+				if n, isC := core.ConstInt(args[0]); isC {
+					s[call] = bigIv{lo: big.NewInt(n), hi: big.NewInt(n)}
+				} else {
+					s[call] = bigIv{top: true}
+				}
+			}
+			return
+		}
+		if !strings.HasSuffix(callee.Signature.Recv().Type().String(), "math/big.Int") {
+			return
+		}
+		z := bigObj(args[0])
+		switch callee.Name() {
+		case "SetBytes":
+			s[z] = bigIv{top: true}
+			if sl, ok := args[1].(*ssa.Slice); ok && sl.High != nil {
+				if k, isC := core.ConstInt(sl.High); isC && k >= 0 && k <= 64 {
+					lowOK := sl.Low == nil
+					if sl.Low != nil {
+						if l, isL := core.ConstInt(sl.Low); isL && l == 0 {
+							lowOK = true
+						}
+					}
+					if lowOK {
+						hi := new(big.Int).Lsh(big.NewInt(1), uint(8*k))
+						s[z] = bigIv{lo: big.NewInt(0), hi: hi.Sub(hi, big.NewInt(1))}
+					}
+				}
+			}
+		case "SetUint64", "SetInt64":
+			if n, isC := core.ConstInt(args[1]); isC {
+				s[z] = bigIv{lo: big.NewInt(n), hi: big.NewInt(n)}
+			} else {
+				s[z] = bigIv{top: true}
+			}
+		case "Set":
+			s[z] = get(s, args[1])
+		case "Add":
+			a, b := get(s, args[1]), get(s, args[2])
+			if a.top || b.top {
+				s[z] = bigIv{top: true}
+			} else {
+				r := bigIv{lo: new(big.Int).Add(a.lo, b.lo)}
+				if a.hi != nil && b.hi != nil {
+					r.hi = new(big.Int).Add(a.hi, b.hi)
+				}
+				s[z] = r
+			}
+		case "Lsh":
+			a := get(s, args[1])
+			n, isC := core.ConstInt(args[2])
+			if a.top || !isC || n < 0 || n > 4096 || a.lo.Sign() < 0 {
+				s[z] = bigIv{top: true}
+			} else {
+				r := bigIv{lo: new(big.Int).Lsh(a.lo, uint(n))}
+				if a.hi != nil {
+					r.hi = new(big.Int).Lsh(a.hi, uint(n))
+				}
+				s[z] = r
+			}
+		case "Mod":
+			a, m := get(s, args[1]), get(s, args[2])
+			if m.top || m.hi == nil || m.lo.Cmp(m.hi) != 0 || m.lo.Sign() <= 0 {
+				s[z] = bigIv{top: true}
+			} else if !a.top && a.lo.Sign() >= 0 && a.hi != nil && a.hi.Cmp(m.lo) < 0 {
+				s[z] = a
+			} else {
+				s[z] = bigIv{lo: big.NewInt(0), hi: new(big.Int).Sub(m.lo, big.NewInt(1))}
+			}
+		case "Cmp", "CmpAbs", "Sign", "BitLen", "Bytes", "String", "Text", "Uint64", "Int64", "IsUint64", "IsInt64", "Bit", "Format", "Append", "FillBytes", "ProbablyPrime", "TrailingZeroBits":
+		default:
+			s[z] = bigIv{top: true}
+		}
+	}
+	refineBigOnEdge := func(b *ssa.BasicBlock, si int, s state, clone func(state) state, get func(state, ssa.Value) bigIv) state {
+		ifi, ok := b.Instrs[len(b.Instrs)-1].(*ssa.If)
+		if !ok {
+			return s
+		}
+		bo, ok := ifi.Cond.(*ssa.BinOp)
+		if !ok {
+			return s
+		}
+		cmp, ok := bo.X.(*ssa.Call)
+		zero, isC := core.ConstInt(bo.Y)
+		if !ok || !isC || zero != 0 || cmp.Call.StaticCallee() == nil || cmp.Call.StaticCallee().Name() != "Cmp" || len(cmp.Call.Args) != 2 {
+			return s
+		}
+		x, m := get(s, cmp.Call.Args[0]), get(s, cmp.Call.Args[1])
+		if x.top || m.top || m.hi == nil || m.lo.Cmp(m.hi) != 0 {
+			return s
+		}
+		// relation between x and M established on this edge
+		op := bo.Op
+		if si == 1 { // condition false
+			switch op {
+			case token.LSS:
+				op = token.GEQ
+			case token.LEQ:
+				op = token.GTR
+			case token.GTR:
+				op = token.LEQ
+			case token.GEQ:
+				op = token.LSS
+			case token.EQL:
+				op = token.NEQ
+			case token.NEQ:
+				op = token.EQL
+			}
+		}
+		M := m.lo
+		lo, hi := x.lo, x.hi
+		one := big.NewInt(1)
+		switch op {
+		case token.LSS:
+			if h := new(big.Int).Sub(M, one); hi == nil || hi.Cmp(h) > 0 {
+				hi = h
+			}
+		case token.LEQ:
+			if hi == nil || hi.Cmp(M) > 0 {
+				hi = M
+			}
+		case token.GTR:
+			if l := new(big.Int).Add(M, one); lo.Cmp(l) < 0 {
+				lo = l
+			}
+		case token.GEQ:
+			if lo.Cmp(M) < 0 {
+				lo = M
+			}
+		case token.EQL:
+			lo, hi = M, M
+		default:
+			return s
+		}
+		if hi != nil && lo.Cmp(hi) > 0 {
+			return nil
+		}
+		ns := clone(s)
+		ns[bigObj(cmp.Call.Args[0])] = bigIv{lo: lo, hi: hi}
+		return ns
+	}
+	in := map[*ssa.BasicBlock]state{}
+	visits := map[*ssa.BasicBlock]int{}
+	work := []*ssa.BasicBlock{fn.Blocks[0]}
+	in[fn.Blocks[0]] = state{}
+	for len(work) > 0 {
+		b := work[0]
+		work = work[1:]
+		visits[b]++
+		s := clone(in[b])
+		for _, ins := range b.Instrs {
+			step(s, ins)
+		}
+		for si, succ := range b.Succs {
+			s := refineBigOnEdge(b, si, s, clone, get)
+			if s == nil {
+				continue // infeasible edge
+			}
+			old, seen := in[succ]
+			var merged state
+			if !seen {
+				merged = clone(s)
+			} else {
+				merged = state{}
+				for k, v := range old {
+					if w, ok := s[k]; ok {
+						merged[k] = joinBig(v, w)
+					} else {
+						merged[k] = v
+					}
+				}
+				for k, w := range s {
+					if _, ok := old[k]; !ok {
+						merged[k] = w
+					}
+				}
+				if visits[succ] > 6 { // widening
+					for k, v := range merged {
+						o := old[k]
+						if v.top || o.top || o.lo == nil {
+							continue
+						}
+						if v.lo.Cmp(o.lo) != 0 {
+							merged[k] = bigIv{top: true}
+						} else if v.hi != nil && (o.hi == nil || v.hi.Cmp(o.hi) != 0) {
+							merged[k] = bigIv{lo: v.lo} // unbounded above
+						}
+					}
+				}
+			}
+			if !seen || !equal(old, merged) {
+				in[succ] = merged
+				work = append(work, succ)
+			}
+		}
+	}
+	s := clone(in[at.Block()])
+	for _, ins := range at.Block().Instrs {
+		if ins == at {
+			break
+		}
+		step(s, ins)
+	}
+	return s
+}
+
+// c41Digits: the random part of the identifier is printed with %0Nx and stays below 16^N on
+// every path into the print, so the identifier always has exactly N hex digits.
+func c41Digits(c *core.Ctx, fn *ssa.Function) {
+	n := 0
+	core.Instrs(fn, func(in ssa.Instruction) {
+		call, ok := in.(*ssa.Call)
+		if !ok || call.Call.StaticCallee() == nil || call.Call.StaticCallee().Name() != "Sprintf" || len(call.Call.Args) != 2 {
+			return
+		}
+		fc, ok := call.Call.Args[0].(*ssa.Const)
+		if !ok {
+			return
+		}
+		format := constant.StringVal(fc.Value)
+		var width int
+		if k, _ := fmt.Sscanf(format, "%%0%dx", &width); k != 1 || format != fmt.Sprintf("%%0%dx", width) {
+			return
+		}
+		n++
+		// the printed operand
+		var obj ssa.Value
+		if sl, ok := call.Call.Args[1].(*ssa.Slice); ok {
+			if al, ok := sl.X.(*ssa.Alloc); ok && al.Referrers() != nil {
+				for _, r := range *al.Referrers() {
+					ia, ok := r.(*ssa.IndexAddr)
+					if !ok || ia.Referrers() == nil {
+						continue
+					}
+					for _, rr := range *ia.Referrers() {
+						if st, ok := rr.(*ssa.Store); ok {
+							if mi, ok := st.Val.(*ssa.MakeInterface); ok {
+								obj = bigObj(mi.X)
+							}
+						}
+					}
+				}
+			}
+		}
+		name := fmt.Sprintf("esdt.createNewTokenIdentifier/%s#%d", format, n)
+		if obj == nil {
+			c.Undecided("C41/identifier-has-fixed-width", name, in.Pos(), "the printed operand is not a tracked *big.Int")
+			return
+		}
+		iv, known := bigIntervalsAt(fn, in)[obj]
+		limit := new(big.Int).Lsh(big.NewInt(1), uint(4*width))
+		ok2 := known && !iv.top && iv.lo.Sign() >= 0 && iv.hi != nil && iv.hi.Cmp(limit) < 0
+		detail := "the value printed is unbounded at this point (incremented around the retry loop without being reduced)"
+		if known && !iv.top && iv.hi != nil {
+			detail = fmt.Sprintf("the value printed ranges over [%s, %s]", iv.lo.Text(16), iv.hi.Text(16))
+		}
+		c.Check(ok2, "C41/identifier-has-fixed-width", name, in.Pos(),
+			fmt.Sprintf("the random part is in [0, 16^%d) on every path into the print: exactly %d hex digits", width, width),
+			fmt.Sprintf("%s, which is not below 16^%d: after a taken candidate at the top of the range the identifier gets %d digits (TICKER-1000000)", detail, width, width+1))
+	})
+	c.Floor("C41/identifier-has-fixed-width", 1)
 }
